@@ -490,3 +490,31 @@ Proof.
   split; [repeat constructor; lia|]. split; [reflexivity|]. split; [reflexivity|].
   split; [vm_compute; tauto|]. vm_compute. intuition discriminate.
 Qed.
+
+(** more non-trivial instances: a 2 x 3 hexagonal patch (22 sites), a 3 x 4 face-centred lattice with
+    axis 1 periodic (15 sites), a 3 x 4 triangular lattice with axis 0 periodic *)
+Example C14_instance_hexagonal :
+  gen_hex_nsites 2 3 = 22 /\
+  code_hex_index_to_coord true 2 3 0 = Some [0; 1] /\ code_hex_index_to_coord true 2 3 1 = Some [0; 3] /\
+  hex_dist4 true [0; 1] [0; 3] = 4 /\ In (0, 1) (snd (code_brick_adj true true 2 3)) /\
+  ~ In (0, 5) (snd (code_brick_adj true true 2 3)).
+Proof. repeat split; try reflexivity; vm_compute; intuition discriminate. Qed.
+
+Example C14_instance_oddface :
+  gen_ofc_ctor_ok 3 4 false true = true /\ gen_ofc_nsites 3 4 = 15 /\
+  gen_ofc_index_to_coord 3 4 12 = Some [1; 1] /\ gen_ofc_index_to_coord 3 4 5 = Some [2; 2] /\
+  In (12, 5) (ofc_pairs 3 4 false true) /\ nn_ofc 3 4 false true [1; 1] [2; 2].
+Proof.
+  repeat split; try reflexivity; try (vm_compute; tauto).
+  right. exists 0, 0, 1, 1. split; [right; reflexivity|]. split; [right; reflexivity|]. left. split; reflexivity.
+Qed.
+
+Example C14_instance_triangular :
+  In (0, 8) (tri_pairs [3; 4] [true; false]) /\ nn_tri [3; 4] [true; false] [0; 0] [2; 0] /\
+  ~ In (0, 11) (tri_pairs [3; 4] [true; false]).
+Proof.
+  split; [vm_compute; tauto|]. split; [|vm_compute; intuition discriminate].
+  left. split; [discriminate|]. exists 0%nat. split; [cbn; lia|]. split.
+  - right. right. split; [reflexivity|]. right. cbn. lia.
+  - intros [|[|k]] Hk; try reflexivity. congruence.
+Qed.
